@@ -96,7 +96,7 @@ fn subr_of(t: &Type) -> Option<SubrType> {
 
 /// () : signature_t is None or not a subroutine type (the checker returns without looking at the arguments)
 /// (0): `args_ownership` would hit `todo!()`
-/// (1 is_method non_defaults var_params defaults kw_var_params): param = ((name)? kind)
+/// (1 (is_method_call obj_is_class) non_defaults var_params defaults kw_var_params): param = ((name)? kind)
 fn sig(c: &Call) -> Sx {
     let Some(t) = c.signature_t() else {
         return l(vec![]);
@@ -110,7 +110,8 @@ fn sig(c: &Call) -> Sx {
     let p = |p: &ParamTy| l(vec![pname(p), z(pkind(p.typ()))]);
     l(vec![
         z(1),
-        b(c.is_method_call()),
+        // self is passed implicitly: a method signature, and the callee object is not a class (singleton refinement type)
+        l(vec![b(c.is_method_call()), b(c.obj.ref_t().is_singleton_refinement_type())]),
         l(sb.non_default_params.iter().map(p).collect()),
         l(sb.var_params.iter().map(|x| p(x)).collect()),
         l(sb.default_params.iter().map(p).collect()),
